@@ -60,7 +60,7 @@ void start_tasks(int n) {
         if (t->seam_stack == MAP_FAILED) { perror("mmap"); exit(3); }
         sem_init(&t->go, 0, 0);
         t->state = TS_IDLE; t->preemptible = false; t->countdown = 0; t->cur = nullptr; t->entry_sp = nullptr; t->seam_req = nullptr;
-        t->edges_call = t->edges_total = 0; t->last_guard = 0; t->locks_held = 0; t->blocked = false; t->ticks_in_quantum = 0;
+        t->edges_call = t->edges_total = 0; t->last_guard = 0; t->locks_held = 0; t->blocked = false; t->ticks_in_quantum = 0; t->watch_p = nullptr; t->watch_n = 0; t->watch_hits = 0; t->watch_armed = false;
         memset(t->slots, 0, sizeof t->slots);
         pthread_attr_t a; pthread_attr_init(&a);
         pthread_attr_setstack(&a, t->stack_lo, t->stack_size);
@@ -277,7 +277,7 @@ static void do_kdf(int gen, const u8* pw, size_t pwlen, const u8* salt, size_t s
         e.out.resize(kl);
         kdf_stream(e.a, e.b, iter, e.out.data(), kl);
         if (key) memcpy(key, e.out.data(), kl);
-        E.watch_armed = true;
+        if (t) t->watch_armed = true;
     });
 }
 
@@ -435,9 +435,9 @@ void boundary_tick(Task* t) {
 
 void monitor_access(const void* addr, unsigned size, bool store) {
     Task* t = tls_task;
-    if (!t || (!E.monitor && !E.watch_p)) return;
+    if (!t || (!E.monitor && !t->watch_p)) return;
     const u8* b = (const u8*)addr;
-    if (E.watch_p && E.watch_armed && b + size > E.watch_p && b < E.watch_p + E.watch_n) E.watch_hits++;   // "afterwards": only once the KDF has written the key
+    if (t->watch_p && t->watch_armed && b + size > t->watch_p && b < t->watch_p + t->watch_n) t->watch_hits++;   // "afterwards": only once the KDF has written the key
     if (!E.monitor) return;
     if (b >= t->stack_lo && b < t->stack_lo + t->stack_size) return;
     E.mon_accesses++;
@@ -492,7 +492,7 @@ void monitor_access(const void* addr, unsigned size, bool store) {
 }
 
 void mem_range(const void* p, size_t n, bool store) {
-    if (!tls_task || (!E.monitor && !(E.watch_p && E.watch_armed)) || !n) return;
+    if (!tls_task || (!E.monitor && !(tls_task->watch_p && tls_task->watch_armed)) || !n) return;
     const u8* b = (const u8*)p;
     while (n) { unsigned c = n > 8 ? 8 : (unsigned)n; unsigned lo = (uintptr_t)b & 7; if (c > 8 - lo) c = 8 - lo; monitor_access(b, c, store); b += c; n -= c; }
 }
